@@ -940,6 +940,7 @@ func Run(r *ev.R, api API, opt Options) {
 		return
 	}
 	x := &runner{api: api, opt: opt, sp: sp, sink: &sink{}}
+	x.sweepSection(r)
 	x.identitySection(r)
 	x.chainSection(r)
 	for _, f := range x.sink.sorted() {
@@ -979,6 +980,8 @@ func replay(r *ev.R, api API, opt Options, rf *ev.ReplayFile) {
 				x.collision("identity", p.I, p.J, x.sp.At(p.I), x.sp.At(p.J), di, "")
 			}
 		}
+	case "sweep":
+		x.replaySweep(p)
 	case "chain":
 		ci := 0
 		if m, ok := p.Detail.(map[string]any); ok {
